@@ -113,6 +113,33 @@ class Ctx:
         return bool(cond)
 
 
+def anchored_modules(pid: str, repo):
+    """python modules of /repo named in the property's anchors (properties.jsonl)"""
+    out = []
+    try:
+        with open(os.path.join(VERIF, "properties.jsonl")) as f:
+            for line in f:
+                p = json.loads(line)
+                if p.get("id") == pid:
+                    for fn in p.get("anchors", {}).get("files", []):
+                        if fn.endswith(".py"):
+                            name = fn[:-3].replace("/", ".")
+                            if name in repo.modules:
+                                out.append(name)
+    except OSError:
+        pass
+    return out
+
+
+def common_obligations(ctx, repo, pid):
+    """obligations every claimed property inherits: what an anchored function returns must not depend on earlier calls
+    through an unsound memo (CACHE rule) """
+    from .rules.cache import check_caches
+    mods = anchored_modules(pid, repo)
+    if mods:
+        check_caches(ctx, repo, pid, mods)
+
+
 def load_known():
     if not os.path.exists(KNOWN_FINDINGS):
         return []
@@ -140,6 +167,7 @@ def run_property(pid: str, tier: str = "quick", replay: Optional[str] = None) ->
         repo = Repo()
         ctx.repo = repo
         mod.run(ctx, repo, tier)
+        common_obligations(ctx, repo, pid)
     except AnalysisError as e:
         fatal = f"{e}"
         ctx.inconclusive("ENGINE", "engine.analysis", "analysis could not be completed", witness=str(e))
